@@ -57,7 +57,9 @@ def rnd_item(rng, base=None):
     orient_when = rng.choice(['after', 'before', 'between'])
     first = [rnd_coord(rng) for _ in range(3)] if rng.random() < 0.3 else None
     return {'cls': cls, 'where': where, 'coord': coord, 'radius': radius,
-            'loaded': rng.random() < 0.9, 'orient': orient, 'orient_when': orient_when, 'first_coord': first}
+            'loaded': rng.random() < 0.9, 'orient': orient, 'orient_when': orient_when, 'first_coord': first,
+            # a replacement of the placed item by one that belongs elsewhere is attempted and refused
+            'rejected': rng.random() < 0.2}
 
 
 def gen_cases(rng, n):
@@ -125,6 +127,25 @@ def build_world(case):
             else:
                 fit.fighters.add(obj)
         items.append(obj)
+        if it.get('rejected') and it['where'] != 'nofit':
+            # documented: assigning an item that already belongs somewhere raises ValueError and changes nothing
+            elsewhere = Fit()
+            taken = cls(tid)
+            if it['cls'] == 'ship':
+                elsewhere.ship = taken
+            elif it['cls'] == 'drone':
+                elsewhere.drones.add(taken)
+            else:
+                elsewhere.fighters.add(taken)
+            try:
+                if it['cls'] == 'ship':
+                    fit.ship = taken
+                elif it['cls'] == 'drone':
+                    fit.drones.add(taken)
+                else:
+                    fit.fighters.add(taken)
+            except ValueError:
+                pass
     # fits that were in the queried solar system and left it again
     for k, it in enumerate(case['items']):
         fit = items[k]._fit
